@@ -43,6 +43,31 @@ def _strip_mut(t):
     return t
 
 
+def _push_loop(ctx, dec, tl, tr):
+    """(L pushed before R?, description) when li and ri are each filled by exactly one push inside one and the same loop of the decoder,
+    None when they are built differently"""
+    def one_push(t):
+        if t.tag != 'mut':
+            return None
+        ps = [e for e in t[2] if e.tag == 'ev' and e[2].endswith('::push') and e[3] and e[4]]
+        others = [e for e in t[2] if e.tag == 'ev' and not e[2].endswith('::push') and e[2].split('::')[-1] not in ('reserve', 'with_capacity')]
+        if len(ps) != 1 or others or len(ps[0][4]) != 1 or ps[0][4][0][0] != dec.key:
+            return None
+        return ps[0][4][0][1]
+    bl, br = one_push(tl), one_push(tr)
+    if bl is None or br is None:
+        return None
+    cfg = ctx.cfgof(dec)
+    hl, hr = cfg.loop_of.get(bl, []), cfg.loop_of.get(br, [])
+    if not hl or hl != hr:
+        return None
+    if cfg.dominates(bl, br) and bl != br:
+        return True, 'push of L at bb%d dominates push of R at bb%d' % (bl, br)
+    if cfg.dominates(br, bl) and bl != br:
+        return False, 'push of R at bb%d dominates push of L at bb%d' % (br, bl)
+    return None
+
+
 def cursor_order(ctx, terms):
     """(True/False/None, explanation): in a decoder of the form `x = rest.split_at(n).0; rest = rest.split_at(n).1; ..` every field is
     the head of what the previous field left: the nesting of the split terms *is* the order.  None when the terms are not of that form."""
@@ -259,6 +284,13 @@ def run(ctx, with_contradiction=True):
         any(x.tag == 'adapt' and x[1] in ('split_at', 'split_at_checked', 'split_first') for t_ in terms.values() for x in walk(t_))
     if 'li' in terms and 'ri' in terms and cursor_style0:
         dec_order = [f for f in dec_order if f not in ('li', 'ri')] + ['li', 'ri']
+    elif 'li' in terms and 'ri' in terms and _push_loop(ctx, dec, terms['li'], terms['ri']) is not None:
+        # both vectors are filled by one push each per iteration of one loop, each push taking the next element of the chunk iterator:
+        # the order of the two pushes in the loop body is the order in which L and R are read
+        l_first, why = _push_loop(ctx, dec, terms['li'], terms['ri'])
+        rep.check(l_first, 'R-C15-1', 'R-C15-1/decoder/unzip', 'L is read before R in every iteration of the loop that fills both (%s)' % why,
+                  'the loop that fills L and R reads R first (%s)' % why, ctx.where(dec, abb))
+        dec_order = [f for f in dec_order if f not in ('li', 'ri')] + ['li', 'ri']
     elif 'li' in terms and 'ri' in terms:
         (ci, bi), (cr, br) = comp(terms['li']), comp(terms['ri'])
         rep.check(ci == ['0'] and cr == ['1'] and bi == br and len(bi) == 1, 'R-C15-1', 'R-C15-1/decoder/unzip', 'L is the first and R the second component of each decoded pair',
@@ -379,6 +411,10 @@ def run(ctx, with_contradiction=True):
     # the leftover buffer is empty: `len() == 0`, `is_empty()`, or `next().is_none()` on it
     lo = find(lambda a: (a[0] == 'cmp' and 'into_buffer' in ''.join(a[2:4])) or (a[0] == 'fail' and a[1].startswith('each(into_buffer(')))
     rm = find(lambda a: a[0] == 'cmp' and 'remainder' in ''.join(a[2:4]))
+    if not lo:
+        # .. or the number of whole elements left for the L/R pairs is required to be even: `chunks.len() % 2 == 0`
+        import re as _re
+        lo = find(lambda a: a[0] == 'cmp' and a[1] == 'Eq' and '0' in (a[2], a[3]) and any(_re.match(r'^\(len\(chunks_exact\(.*\)\) Rem 2\)$', x) for x in (a[2], a[3])))
     if cursor_style and not lo and not rm:
         # one test covers both: whatever the cursor has not consumed must be empty
         ex = [r for a, r in atoms if a[0] == 'cmp' and a[1] == 'Eq' and a[2] == '0' and a[3].startswith('len(') and r['eff'] != 'bypass' and
